@@ -1399,7 +1399,9 @@ class OptionStore:
 
             oldval = self.get_value_object(key)
             if type(oldval) is not type(value):
-                self.set_option(key, value.value)
+                # The option changed its type: the old value means nothing
+                # to the new declaration, which starts with its default.
+                self.options[key] = value
             elif choices_are_different(oldval, value):
                 # If the choices have changed, use the new value, but attempt
                 # to keep the old options. If they are not valid keep the new
